@@ -30,6 +30,12 @@ def c03_stages(tier):
     return [wire_stage("C03", 4_000_000, timeout=1800), wire_stage("C03", 1600, name="miri", kind="miri", shards=16, timeout=2400)]
 
 
+def c12_stages(tier):
+    if tier == "quick":
+        return [wire_stage("C12", 200_000), wire_stage("C12", 160, name="miri", kind="miri", shards=16, timeout=600)]
+    return [wire_stage("C12", 6_000_000, timeout=1800), wire_stage("C12", 3200, name="miri", kind="miri", shards=16, timeout=2400)]
+
+
 PROPS = {
     "C01": {
         "level": "exploration",
@@ -48,6 +54,22 @@ PROPS = {
                 "transport/segmentation class, capacity class, outcome class) plus every (opcode, cut position) of the exhaustive single-cut sweep; "
                 "all cases reach handle_message (non-trivial).",
         "assumptions": ["kernel layout table from /usr/include/linux/fuse.h", "SOCK_SEQPACKET delivers one record per write()/writev()"],
+    },
+    "C12": {
+        "level": "exploration",
+        "stages": c12_stages,
+        "floor": 1000,
+        "technique": "runtime monitoring: INIT replies checked against a protocol-derived negotiation oracle over randomized (major, minor, flags, flags2, "
+                     "extension presence, filesystem want set)",
+        "level_text": "Random and boundary INIT requests (major 6/7/8/other, minors around every layout boundary, full / legacy / truncated bodies, "
+                      "random capability words) against scripted filesystem option sets; the reply is decoded with the kernel layout and the set of "
+                      "features the client would honour (extended bits only with FUSE_INIT_EXT) must equal offered AND wanted, with the reply size of "
+                      "the client's minor, version-mismatch handling, max_write/max_pages limits and exactly one filesystem init call.",
+        "level_note": "The negotiation rule is the harness' reading of the uapi header and fs/fuse/inode.c (process_init_reply); FUSE_HAS_RESEND (bit 39) "
+                      "is newer than the installed header.",
+        "rule": "case = one INIT; distinct = (major class, minor class, extension present, INIT_EXT offered, extended bits wanted, extended bits offered, "
+                "init error, transport). All cases non-trivial.",
+        "assumptions": ["kernel layout table from /usr/include/linux/fuse.h (7.38)"],
     },
     "C02": {
         "level": "exploration",
